@@ -355,3 +355,41 @@ void vf_harness(void) { Set_eq(); VF_CANARY(); }
     trusted=['Enumerator over *this visits each member exactly once; s.has answers as the finite set s'],
 )
 UNITS += [hm_eq, set_eq]
+
+# ---- Map::add(d): merges through operator[]; d is only read.  `(*this)[k] = v` is the finite-map update proved in Map_set (here a recording stub);
+# an Array handle assignment `a = x.a` (C01 Array::operator=: shares x's block and bumps its reference count) is rewritten to that contract, so that
+# keeping a reference to d's storage is seen.
+map_add = Unit(
+    'Map_add', 'C02',
+    cuts=[CMP(), Cut('add', M, r'^\tvoid add\(const Map& d\)\s*$',
+              rules=[(r'\bd\.a\.length\(\)', 'HDR(&d_p->a)->n', None), (r'\bd\.a\[(\w+)\]', r'd_p->a._a[\1]', None),
+                     (r'\(\*this\)\[([^;]*?)\] = ([^;]*);', r'MAP_INDEX_SET(\1, \2);', None),
+                     (r'(?<![\w.>])a = d\.a;', 'ARRAY_ASSIGN_FROM_D();', None), (r'(?<![\w.>])a\.length\(\)', 'g_self_n', None), (r'(?<![\w.>])length\(\)', 'g_self_n', None)],
+              post=[(r'\A\{', '{ __CPROVER_assert(d_p->a._a == KV2, "anchor d"); ((Map*)d_p)->a._a = KV2; ', 1)])],
+    text=PRE + MAPDEF + r"""
+char* g_block2;
+#define BLK2 ((Data*)g_block2)
+#define KV2 ((KeyVal*)(g_block2 + sizeof(Data)))
+#define ND 3
+int g_self_n, g_calls, g_key_k, g_val_k, g_shared;
+/* (*this)[k] = v : Map_set's contract (view' = view[k -> v]); this unit only records which updates are made, in which order */
+static void MAP_INDEX_SET(int k, int v) { if (g_calls == g_k) { g_key_k = k; g_val_k = v; } g_calls++; g_self_n++; }
+/* a = d.a : Array::operator= (C01 unit Array_assign): *this now shares d's block, whose reference count goes up */
+static void ARRAY_ASSIGN_FROM_D(void) { BLK2->rc++; g_shared = 1; g_self_n = BLK2->n; }
+void Map_add(const Map* d_p)
+__CPROVER_requires(__CPROVER_is_fresh(d_p, sizeof(Map)) && __CPROVER_is_fresh(g_block2, sizeof(Data) + ND * sizeof(KeyVal)) && d_p->a._a == KV2 && 0 <= BLK2->n && BLK2->n <= ND && BLK2->rc >= 1 && BLK2->rc < 1000)
+__CPROVER_requires(0 <= g_self_n && g_self_n <= 1000 && g_calls == 0 && g_shared == 0 && 0 <= g_k && g_k < BLK2->n)
+/* this' = this overridden by d: one update per pair of d, each with that pair's key and value; d itself - its pairs AND its storage's reference count - is untouched,
+   so later changes to *this cannot show through d */
+__CPROVER_ensures(g_calls == BLK2->n && g_key_k == KV2[g_k].key && g_val_k == KV2[g_k].value)
+__CPROVER_ensures(BLK2->rc == __CPROVER_old(BLK2->rc) && BLK2->n == __CPROVER_old(BLK2->n) && !g_shared)
+__CPROVER_assigns(g_self_n, g_calls, g_key_k, g_val_k, g_shared, d_p->a._a)
+@@add@@
+void vf_harness(void) { const Map* d; Map_add(d); VF_CANARY(); }
+""",
+    entry='Map_add', kind='bounded', bound='d has at most 3 pairs', unwind=6,
+    desc='Map::add(d): exactly one operator[] update per pair of d with that key and value (any size of *this, empty too); d and the reference count of its storage unchanged (no sharing of storage with d)',
+    functions=['Map::add'],
+    trusted=['(*this)[k] = v by the Map_set contract; Array::operator= by the C01 Array_assign contract (shares the block)'],
+)
+UNITS += [map_add]
